@@ -66,6 +66,39 @@ pub fn run(tier: Tier) -> i32 {
         }
         jobs.push(Job { p, counts: Some(counts.clone()), part: "runtime-counts", cases: (all.len() * 62 * counts.len()) as u64, nontriv: (all.len() * 62) as u64 });
     }
+    // ---- forms written as the EMPTY string: a form that is written is the form rendered, whatever it holds
+    {
+        let mut all = vec!["en"];
+        all.extend(locales.iter().copied().filter(|l| *l != "en"));
+        let mut p = Project::new(Config::simple("en", &all));
+        for l in &all {
+            let mut e = vec![];
+            for ordinal in [false, true] {
+                for (i, f) in FIVE.iter().enumerate() {
+                    // form f empty, all the others written
+                    let base = format!("e{i}{}", if ordinal { "o" } else { "c" });
+                    for g in FIVE {
+                        e.push((form_key(&base, ordinal, g), if g == *f { st("") } else { form_val(&format!("{l}.{base}"), g) }));
+                    }
+                    e.push((form_key(&base, ordinal, Form::Other), form_val(&format!("{l}.{base}"), Form::Other)));
+                }
+                // every form but `_other` empty; `_other` empty
+                let base = format!("ea{}", if ordinal { "o" } else { "c" });
+                for g in FIVE {
+                    e.push((form_key(&base, ordinal, g), st("")));
+                }
+                e.push((form_key(&base, ordinal, Form::Other), form_val(&format!("{l}.{base}"), Form::Other)));
+                let base = format!("eo{}", if ordinal { "o" } else { "c" });
+                for g in FIVE {
+                    e.push((form_key(&base, ordinal, g), form_val(&format!("{l}.{base}"), g)));
+                }
+                e.push((form_key(&base, ordinal, Form::Other), st("")));
+            }
+            p.set_file(None, l, e);
+        }
+        let small: Vec<Num> = (0..=30).chain([100, 101, 111, 1000, 1_000_000]).map(Num::I).collect();
+        jobs.push(Job { p, counts: Some(small), part: "empty-forms", cases: (all.len() * 14 * 36) as u64, nontriv: (all.len() * 14) as u64 });
+    }
     // ---- parse-time selection: one project per locale (as default, so that its own rules apply)
     for l in &locales {
         let mut entries = plural_entries(l, &fk_masks);
@@ -297,7 +330,7 @@ pub fn run(tier: Tier) -> i32 {
         rep.sample(json!({"part": jobs[j].part, "project_head": vmodel::report::truncate(&jobs[j].p.describe(), 300)}));
     }
     let mut cov = serde_json::Map::new();
-    cov.insert("rule".into(), json!(format!("locales {locales:?}; for every non-empty subset of {{zero,one,two,few,many}} + other, cardinal and ordinal (62 keys per locale): merged tree evaluated under counts 0..=200,10^3,10^6,10^6+1,10^9 against ICU4X category_for called by the harness; UnusedForm diagnostics compared as a multiset with categories(); parse-time selection through `$t(k,{{count:n}})` for every such n plus decimals 0.5,1.0,1.5,2.0,0.0,21.0 and a renamed count, each locale as default; error side: every (cardinal form, ordinal form) pair under one base, with and without a mergeable set; every subset with a plain key of the base name; a plural whose base is a key that is itself named like a form and stays unmerged (lone k_two, k_one+k_two, lone k_other, lone ordinal forms; cardinal / ordinal plural of 2 or 3 forms, either file order: 48 files per locale); every subset without _other (keys must stay as written); three base keys in one file each in one of 6 states (absent, lone _one, lone _other, _one+_two, _one+_other, ordinal _one+_other): 216 files; forms inside subkeys/namespaces and look-alike suffixes; per locale, cardinal and ordinal: three- and four-level reference chains in which the middle key renames the plural's count and has a plain variable called `count`, the outer keys passing `count` / the new name / both as literal, text or variable")));
+    cov.insert("rule".into(), json!(format!("locales {locales:?}; for every non-empty subset of {{zero,one,two,few,many}} + other, cardinal and ordinal (62 keys per locale): merged tree evaluated under counts 0..=200,10^3,10^6,10^6+1,10^9 against ICU4X category_for called by the harness; UnusedForm diagnostics compared as a multiset with categories(); the same with one form / every form but _other / _other written as the empty string (a written form is the form rendered); parse-time selection through `$t(k,{{count:n}})` for every such n plus decimals 0.5,1.0,1.5,2.0,0.0,21.0 and a renamed count, each locale as default; error side: every (cardinal form, ordinal form) pair under one base, with and without a mergeable set; every subset with a plain key of the base name; a plural whose base is a key that is itself named like a form and stays unmerged (lone k_two, k_one+k_two, lone k_other, lone ordinal forms; cardinal / ordinal plural of 2 or 3 forms, either file order: 48 files per locale); every subset without _other (keys must stay as written); three base keys in one file each in one of 6 states (absent, lone _one, lone _other, _one+_two, _one+_other, ordinal _one+_other): 216 files; forms inside subkeys/namespaces and look-alike suffixes; per locale, cardinal and ordinal: three- and four-level reference chains in which the middle key renames the plural's count and has a plain variable called `count`, the outer keys passing `count` / the new name / both as literal, text or variable")));
     cov.insert("exhaustive".into(), json!(true));
     cov.insert("outcome_classes".into(), json!(*outcomes.lock().unwrap()));
     cov.insert("key_locale_comparisons".into(), json!(*keys_total.lock().unwrap()));
